@@ -26,15 +26,26 @@ EXTENDS WSServerCommon
 
 TwsIn(m0, e) ==
   LET sym == e.a
-      m   == [m0 EXCEPT !.hs = "busy", !.popt = {}, !.last = "in." \o sym,
-                        !.ctx = IF sym \in SubSyms THEN Ctx(m0, SubId(sym))
-                                ELSE IF sym \in CompSyms THEN Ctx(m0, CompId(sym)) ELSE ""]
+      m   == Busy(m0, sym, InCtx(m0, sym))
   IN
   IF m0.hs # "reading" \/ m0.conn = "closed" THEN Reject(m0, "Harness", "input-while-not-reading", m0.hs)
   ELSE
   CASE sym = "init" ->
          IF m.conn = "opened" THEN [m EXCEPT !.pend = "ack"]
          ELSE [m EXCEPT !.pend = "close", !.pcodes = {4429}]
+    \* a refused init: never acknowledged; the server may close (4401 as the code does, 4403, 4400) - if it does not,
+    \* the connection simply stays un-acknowledged.  On an acknowledged connection it is a second init all the same.
+    [] sym = "initrej" ->
+         IF m.conn = "opened" THEN [m EXCEPT !.popt = {Opt("close4401", ""), Opt("close4403", ""), Opt("close4400", "")}]
+         ELSE [m EXCEPT !.pend = "close", !.pcodes = {4429}]
+    \* a subscribe before the ack is closed with 4401 whatever its payload looks like; after the ack an
+    \* undeserializable payload may be refused (4400, error(id) for a free id) or ignored - no operation starts
+    [] sym = "subbad" ->
+         IF m.conn # "acked" THEN [m EXCEPT !.pend = "close", !.pcodes = {4401}]
+         ELSE [m EXCEPT !.popt = {Opt("close4400", "")} \cup
+                                 (IF m.op["1"].st = "active" THEN {Opt("close4409", "")} ELSE {Opt("error", "1")})]
+    \* a transport read error is not a message: nothing is sent for it
+    [] sym = "readerr" -> m
     [] sym = "ping" -> [m EXCEPT !.pend = "pong"]
     [] sym = "pong" -> m
     [] sym = "missingid" ->
@@ -82,6 +93,7 @@ TwsStep(m, e) ==
     [] e.ev = "wedge"   -> Reject(m, "NeverWedged", "wedged", e.a)
     [] e.ev = "panic"   -> Reject(m, "NoPanic", "panic", e.a)
     [] e.ev = "done"    -> m
+    [] e.ev = "broken"  -> [m EXCEPT !.broken = TRUE]
     [] e.ev = "hold"    -> [m EXCEPT !.wif = TRUE]
     [] e.ev = "unhold"  -> [m EXCEPT !.wif = FALSE]
     [] OTHER            -> Reject(m, "Harness", "unknown-event", e.ev)
